@@ -40,6 +40,7 @@ def targets(args):
 
 def main(args):
     with_tests = "--tests" in args
+    tier = "thorough" if "--thorough" in args else "quick"
     res = []
     for patch, pids in targets(args):
         scratch = tempfile.mkdtemp(prefix="vmut-", dir="/tmp")
@@ -55,9 +56,11 @@ def main(args):
                 res.append((patch, "tests", "PASS" if t.returncode == 0 else "FAIL(rc=%d)" % t.returncode, ""))
             for pid in pids:
                 t0 = time.time()
-                r = subprocess.run([os.path.join(VERIF, "vcheck"), "run", pid, "--tier", "quick"], env=env, capture_output=True, text=True)
+                r = subprocess.run([os.path.join(VERIF, "vcheck"), "run", pid, "--tier", tier], env=env, capture_output=True, text=True)
                 verdict = {0: "MISSED", 1: "CAUGHT", 2: "ERROR"}.get(r.returncode, "rc=%d" % r.returncode)
                 keys = [l.strip() for l in r.stdout.splitlines() if l.strip().startswith("key=")]
+                if tier == "thorough":
+                    keys = [k for k in keys if k.startswith("key=helgrind") or k.startswith("key=memcheck")] + keys
                 detail = "; ".join(keys[:4]) if verdict == "CAUGHT" else r.stdout[-400:].replace("\n", " | ")
                 res.append((patch, pid, verdict, "%.0fs %s" % (time.time() - t0, detail)))
         finally:
